@@ -47,5 +47,6 @@ def build(u):
     u.include('spec/u_lexa_spec.rs', kind='spec')
     u.emit(AL, 'fn is_identifier_continuation')
     u.emit(AL, 'fn parse_integer_suffix', rules=[LR.str_patterns])
+    u.emit(AL, 'fn strip_line_terminator', rules=LR.STRIP_RULES)
     u.emit(AL, 'fn lex_line', rules=LR.LEX_LINE_RULES)
     u.emit(AL, 'fn lex', rules=LR.LEX_RULES + [rules.r18_annotate('tokens', 'Vec<LexedToken>'), rules.r18_annotate('offset', 'usize')])
